@@ -1578,6 +1578,10 @@ func processInlineMacros(exp Exporter, args [][]ast.Inline) string {
 	ws := ctx.WantsSpace
 	oldpar := ctx.parScope
 	proc := ctx.Process
+	// Markup opened in the arguments has to be closed in them, and they
+	// cannot close markup opened before: hide the outer inline scopes.
+	inlineScopes := ctx.scopes[scopeInline]
+	ctx.scopes[scopeInline] = nil
 	if !ctx.Process {
 		ctx.quiet = true
 	}
@@ -1594,12 +1598,11 @@ func processInlineMacros(exp Exporter, args [][]ast.Inline) string {
 		ctx.parScope = oldpar
 		ctx.Process = proc
 		ctx.quiet = false
+		ctx.scopes[scopeInline] = inlineScopes
 	}()
 	ctx.loc = &location{curBlocks: blocks, curFile: loc.curFile}
 	processBlocks(exp)
-	if !oldpar {
-		closeUnclosedScopes(exp, scopeInline)
-	}
+	closeUnclosedScopes(exp, scopeInline)
 	return ctx.buf.String()
 }
 
